@@ -3,7 +3,7 @@ sys.path.insert(0, os.path.dirname(os.path.abspath(__file__)))
 import seqfam, vlib, exprgen
 from exprgen import sql, col, num, strlit
 
-ASSUME = ["texts and patterns over the alphabet {%, _, a, b, .} (the . stands for regex metacharacters) plus upper-case variants for the case-sensitivity scenarios; no quote characters",
+ASSUME = ["texts and patterns over the alphabet {%, _, a, b, .} (the . stands for regex metacharacters) plus upper-case variants for the case-sensitivity scenarios, plus a set of patterns / texts holding double-quote characters",
           "carriers: WHERE, searched-CASE condition in SELECT (exhaustive like WHERE), parenthesised SELECT expression, HAVING over the alias of last_value(s); an un-parenthesised x LIKE p as a SELECT expression is a pinned finding",
           "x LIKE p with x NULL or missing: the row is rejected / the value is not true"]
 ALPHA = ["%", "_", "a", "b", "."]
@@ -113,6 +113,18 @@ def run(tier):
                 scen.append(null_scen(col("s"), flat_rows, carrier, neg, mode))
                 # WHERE o.f IS NULL with the parent object absent is a pinned finding (NestedIsNullParentAbsent)
                 scen.append(null_scen({"t": "path", "p": ["o", "f"]}, nest_rows[:3] if carrier == "where" else nest_rows, carrier, neg, mode))
+    # columns whose NAME contains an operator word (note / Notes / annotation contain "not", nullable "null", island "is"): the name decides nothing
+    for name in ("note", "Notes", "annotation", "nullable", "island", "s_not_null"):
+        rows_n = [{"id": 1, name: "a"}, {"id": 2, name: None}, {"id": 3}, {"id": 4, name: ""}]
+        for carrier in ("where", "case"):
+            for neg in (False, True):
+                scen.append(dict(null_scen(col(name), rows_n, carrier, neg, "sync" if neg else "emit"), norename=True))
+    # quote characters inside patterns and texts (a double quote at the edge of a single-quoted pattern is a character like any other)
+    qpats = ['"a%', '%"', '"_', 'a"%', '"', '%"%', '_"', '"%"']
+    qtexts = ['"ab', 'ab', 'a"', '"', 'x"', 'a"b', '""', '', '"a"', 'a']
+    for k, pat in enumerate(qpats):
+        for carrier in ("where", "case", "selpar"):
+            scen.append(like_scen(pat, qtexts, carrier, "sync" if k % 2 else "emit"))
     # CASE carrier with NULL texts for the patterns that a stringified NULL could match by accident
     for k, pat in enumerate(["%", "%%", "_____", "<%", "%i%", "%l>", "<nil>", "<___>", "nil", "%n%", "NULL", "%U%"]):
         scen.append(like_scen(pat, ["a", None, "<nil>", None, "null", "NULL"], "case", "sync" if k % 2 else "emit"))
